@@ -51,12 +51,15 @@ type Profile struct {
 	KeyStyle     string   // plain | adversarial | numeric
 	AltKeyStyles []string // styles drawn instead of KeyStyle with probability AltKeyProb
 	AltKeyProb   float64
-	MinSteps     int
-	MaxSteps     int
-	Retain       bool
-	Weights      map[string]float64
-	FaultFree    float64  // share of runs with every fault kind off
-	Faults       []string // kinds that count as faults (switched off in fault-free runs)
+	// MistypedAttrs: items may carry g1 with a non-declared type while no index
+	// is keyed by it, so that a later index creation meets ill-typed items
+	MistypedAttrs bool
+	MinSteps      int
+	MaxSteps      int
+	Retain        bool
+	Weights       map[string]float64
+	FaultFree     float64  // share of runs with every fault kind off
+	Faults        []string // kinds that count as faults (switched off in fault-free runs)
 }
 
 // RunCfg is the swarm configuration drawn for one run.
@@ -442,7 +445,7 @@ func (g *Gen) item(name string, def TableDef, key Item) Item {
 	for _, k := range indexAttrs(def) {
 		indexed[k.Name] = true
 	}
-	if !indexed["g1"] && g.R.Chance(0.06) {
+	if g.P.MistypedAttrs && !indexed["g1"] && g.R.Chance(0.08) {
 		it["g1"] = N("5")
 	}
 	n := g.R.Intn(4)
@@ -481,8 +484,12 @@ func (g *Gen) cond(name string, def TableDef, depth int) *Expr {
 	for _, k := range def.KeyAttrs() {
 		cands = append(cands, cand{k.Name, k.Type})
 	}
-	for _, k := range indexAttrs(def) {
-		cands = append(cands, cand{k.Name, k.Type})
+	if !g.P.MistypedAttrs {
+		// (with MistypedAttrs an index attribute may hold another type, and a
+		// cross-type comparison is outside the fragment: appendix A)
+		for _, k := range indexAttrs(def) {
+			cands = append(cands, cand{k.Name, k.Type})
+		}
 	}
 	c := pick(r, cands)
 	p := &Path{Attr: c.name, Alias: r.Chance(0.3)}
